@@ -246,6 +246,9 @@ template<typename FwdC>
 void req_compactor<T, C, A>::merge(FwdC&& other) {
   // TODO: swap if other is larger?
   if (lg_weight_ != other.lg_weight_) throw std::logic_error("weight mismatch");
+  // an odd state means that the next compaction reuses the flipped last coin: take that coin along with the state,
+  // otherwise a compactor that has not drawn a coin yet would compact deterministically (biased ranks)
+  if ((state_ & 1) == 0 && (other.state_ & 1) == 1) coin_ = other.coin_;
   state_ |= other.state_;
   while (ensure_enough_sections()) {}
   ensure_space(other.get_num_items());
